@@ -310,7 +310,9 @@ def run(ctx: Ctx):
     angles = structured_angles(ctx.rng, 3 if quick else 8)
     # every (l, m) up to l = 6 at every angle pair; thorough: additionally l = 7..10 at a sub-list of the angles
     hi_angles = [a for a in angles if a[0] in ("pole0-negtheta", "polepi", "equator", "theta-negative", "theta>2pi", "near-pole", "random0")]
-    passes = [(6, angles, 0)] + ([] if quick else [(Lc, hi_angles, 7)])
+    # quick: two of the structured pairs are left to the numerical searches (they stay in `angles` for those)
+    coq_angles = [a for a in angles if not (quick and a[0] in ("equator-thetapi", "theta-far"))]
+    passes = [(6, coq_angles, 0)] + ([] if quick else [(Lc, hi_angles, 7)])
     cases, meta = [], []
     for Lp, angs, lmin in passes:
         th = [a[1] for a in angs]
@@ -526,7 +528,7 @@ def run(ctx: Ctx):
         ctx.broken_tie(what, err, cands)
     pend.flush()
     ctx.cov["rule"] = (
-        f"interval correspondence: every (l,m) with l <= 6 at {len(angles)} angle pairs{'' if quick else f' and 7 <= l <= {Lc} at {len(hi_angles)} of them'} (both poles with several azimuths, equator, negative azimuth, azimuth > 2 pi, "
+        f"interval correspondence: every (l,m) with l <= 6 at {len(coq_angles)} angle pairs{'' if quick else f' and 7 <= l <= {Lc} at {len(hi_angles)} of them'} (both poles with several azimuths, equator, negative azimuth, azimuth > 2 pi, "
         f"azimuth 0, near-pole, {3 if quick else 8} random; all exact dyadics) - Coq goal |model entry - observed| <= 5e-10 (1+|y|) proved by `interval` on the generated loop, "
         "SciPy-based routine compared with the recursion exactly in rationals with the same bound; both derivative blocks for l <= "
         f"{Ld}; solid harmonics l <= 4 incl. r = 0; convert_cart_to_sph at centres/axis/random points; gradient conversion incl. the r < 1e-10 and phi < 1e-10 branches; "
